@@ -395,7 +395,12 @@ def finish(ctx, replay_fn=None):
                 # second attempt before giving up
                 got, r = ctx.replay_harness(v["harness"], v["spec"])
                 keys = [k for k, _ in got]
-            if v["key"] not in keys:
+            if v["key"] not in keys and keys:
+                # The case fails again on replay, but with a different symptom (a race in the code under test shows as different
+                # wrong outputs from run to run). It is a reproduced failure of this case: report it under the key the replay gave.
+                v["detail"] = "[first seen as %s; the replay of the same case failed as %s] %s" % (v["key"], keys[0], v["detail"])
+                v["key"] = keys[0]
+            elif v["key"] not in keys:
                 raise HarnessError("violation %s did not reproduce on replay (spec=%s) - harness nondeterminism; "
                                    "replay printed %r\n%s" % (v["key"], v["spec"], keys, r.stderr[-2000:]))
     complete = all(c for _, c in ctx.bounds) and not ctx.expired()
